@@ -2586,9 +2586,10 @@ class Composite(ArmiObject):
 
     def remove(self, obj):
         """Remove a particular child."""
+        # raises ValueError for an object that is not a child, before that object is touched
+        self._children.remove(obj)
         obj.parent = None
         obj.spatialLocator = obj.spatialLocator.detachedCopy()
-        self._children.remove(obj)
 
     def moveTo(self, locator):
         """Move to specific location in parent. Often in a grid."""
